@@ -46,7 +46,14 @@ META = {
     "reference semantics validated exhaustively against the installed numpy on every run (all 1-3 dtype combinations, all "
     "pairs, every range edge).  Numpy integer scalars of every width as tile / pixel / window index at every indexing entry "
     "point must be refused or give the Python-int answer (index * tile size, index + 1 and offsets beyond the dtype's "
-    "range).",
+    "range); on the repaired code this is a theorem of a bounded-width index model (Model/Props C04Np: tile_shape and locate "
+    "answer like Python ints or refuse, [] / crop / pix_bbox refuse; _cex for the wrap as found), tied by a correspondence "
+    "over the same layouts.  casting= and an explicit dtype= of extract (Props/C04Cast): with the dtype left to extract the "
+    "default rule never refuses a block, casting='no' accepts exactly identical dtypes, a dtype of a lower kind than some "
+    "block is refused even when that block lies outside the window; np.can_cast for all five rules validated exhaustively.  "
+    "Decided observations (Props/C04Pin): chunk tuples that do not add up to the GeoBox are REFUSED (fix2-C04, gbtInitR: a "
+    "constructed tiled GeoBox always has its GeoBox as base); negative tile sizes, block keys naming one tile twice (later "
+    "block wins) and over-long index tuples are outside the property's quantifier and pinned as they are.",
     "note": "Trusted: Lean kernel + {propext, Classical.choice, Quot.sound}; Spec/NpArray (numpy searchsorted, "
     "int indexing, tuple slicing, copyto of equal-length slices) validated against numpy each run; numpy "
     "dtype promotion is modelled as reference semantics (Model/C04Dtype: resultTypeL, safeCast, minScalar*, fullRaises), the "
@@ -59,13 +66,13 @@ META = {
     "index argument form (TypeError / AttributeError via a local error extension), shape_ / Tiles.__init__ / roi_tiles / "
     "GeoboxTiles.__init__ dispatch, planes_yx(yx_roi), WindowFromSlice, roi_shape; modelled domain of the glue: Python "
     "ints, tuple members int or step-less slice, axis >= 0, chunk entries in int32 range, `how` a shape spelling or a "
-    "sequence of int sequences.  Observed, not a claim: GeoboxTiles(gbox, chunks) never compares the chunk sums with "
-    "gbox.shape (theorem gbt_variable_exceeds_geobox_cex); BlockAssembler accepts negative keys (two keys may name one "
-    "tile); BlockAssembler({}, chunks, axis>0) raises AssertionError.  NOT mirrored in Lean (oracle / correspondence "
-    "only, or out of scope): the `casting=` argument of extract and what np.copyto does with an explicitly narrower "
-    "`dtype=`; float fills beyond the range of a floating result become inf (numpy; theorem float32_fill_1e40_overflows_cex); "
-    "numpy-int indices (oracle only: refused or equal to the Python-int answer; as repaired by fix2-C04 tile_shape / locate "
-    "convert them); GeoBox.compute_crop branches other than a pair of slices / ints (Geometry, BoundingBox, GeoBox, "
+    "sequence of int sequences.  As found GeoboxTiles(gbox, chunks) never compared the chunk sums with gbox.shape "
+    "(gbt_variable_exceeds_geobox_cex; repaired); BlockAssembler accepts negative keys (two keys may name one tile: pinned); "
+    "BlockAssembler({}, chunks, axis>0) raises AssertionError.  NOT mirrored in Lean (oracle / correspondence "
+    "only, or out of scope): the VALUES np.copyto writes when it narrows within a kind (float64 tiles into a float32 "
+    "window: rounded by numpy); float fills beyond the range of a floating result become inf (numpy; theorem float32_fill_1e40_overflows_cex); "
+    "numpy-int indices inside BlockAssembler windows and GeoboxTiles entry points (oracle only; Tiles / VariableSizedTiles "
+    "entry points are modelled); GeoBox.compute_crop branches other than a pair of slices / ints (Geometry, BoundingBox, GeoBox, "
     "step != 1 -> NotImplementedError: C02); __eq__ / __str__ / __dask_tokenize__ of Tiles, VariableSizedTiles, "
     "GeoboxTiles (C19); negative tile sizes.",
     "technique": "Lean 4 proof over hand model + exhaustive/random differential correspondence with real code",
